@@ -23,7 +23,7 @@
        dimension (grids per entry and axes);
      - __getitem__ for EVERY form (int, slice, index list / tensor / array, boolean mask, Ellipsis, tuples), ImageBatch and
        FlowFields; the narrow method along the batch dimension (also negative dim); __iter__; from_images / collate_samples of
-       any selection of items; append; copy / deepcopy / pickle;
+       any selection of items; append; the FlowFields(batch) constructor; copy / deepcopy / pickle;
      - Image / FlowField dispatchers: a typed result carries the operand's grid, of the data's spatial shape, and its axes;
      - programs of any length (induction over the operation list): for a syntactic family of steps, and in general for
        any run whose steps satisfy the step theorems above.
@@ -32,7 +32,7 @@
    more operands mixing single images and batches, batch o flow field, ImageBatch.sample, the VALUES of converted flow vectors (append of other axes: value oracle on the implementation). *)
 From Coq Require Import String List ZArith Bool Arith Lia.
 From DV Require Import Model.Enums Model.Batch Model.BatchSpec Model.BatchPins Gen.BatchTables
-  Proofs.C19Base Proofs.C19Generic Proofs.C19Aligned Proofs.C19Cat Proofs.C19GetItem Proofs.C19Split Proofs.C19Flow Proofs.C19Binary Proofs.C19Explicit Proofs.C19Single Proofs.C19Prog Proofs.C19Refuted Proofs.C19FlowCat Proofs.C19Mixed.
+  Proofs.C19Base Proofs.C19Generic Proofs.C19Aligned Proofs.C19Cat Proofs.C19GetItem Proofs.C19Split Proofs.C19Flow Proofs.C19Binary Proofs.C19Explicit Proofs.C19Single Proofs.C19Prog Proofs.C19Refuted Proofs.C19FlowCat Proofs.C19Mixed Proofs.C19Ctor.
 Import ListNotations.
 
 (* 0. the tables / conditions / method bodies the model transcribes are the ones in the source now *)
@@ -198,9 +198,10 @@ Proof.
 Qed.
 Print Assumptions C19_getitem_sound.
 
-(* batch.narrow(dim, start, length) along the batch dimension, dim = 0 or dim = -ndim *)
+(* batch.narrow(dim, start, length) along the batch dimension, dim = 0 or dim = -ndim, start from the front or (negative)
+   from the end *)
 Theorem C19_narrow_method_sound :
-  forall (gshape : gid -> shape) (gaxes : gid -> axes) (fl : option axes) (sh : shape) (gs : list gid) (z : Z) (st len : nat),
+  forall (gshape : gid -> shape) (gaxes : gid -> axes) (fl : option axes) (sh : shape) (gs : list gid) (z st : Z) (len : nat),
   wf_val gshape (mkT sh (TBatch fl gs)) -> (z = 0 \/ z = - Z.of_nat (ndim sh))%Z ->
   res_sound gshape [mkT sh (TBatch fl gs)] (run_op gshape gaxes (ONarrowM z st len) [mkT sh (TBatch fl gs)]).
 Proof. exact narrow_method_batch_sound. Qed.
@@ -220,6 +221,22 @@ Theorem C19_from_images_collate_sound :
   res_sound gshape [mkT sh (TBatch fl gs)] (run_op gshape gaxes (OIterBuild how sel) [mkT sh (TBatch fl gs)]).
 Proof. exact iter_build_sound. Qed.
 Print Assumptions C19_from_images_collate_sound.
+
+(* FlowFields(batch): same data, the grids of the batch entry by entry, the axes of the operand if it is a FlowFields and the
+   default axes of its first grid otherwise; refused only for nchannels <> sdim (or an empty image batch) *)
+Theorem C19_flowfields_constructor_sound :
+  forall (gshape : gid -> shape) (gaxes : gid -> axes) (sh : shape) (fl : option axes) (gs : list gid),
+  wf_val gshape (mkT sh (TBatch fl gs)) ->
+  match run_op gshape gaxes OAsFlows [mkT sh (TBatch fl gs)] with
+  | OOne o => v_shape o = sh /\ v_src o = ident_src 0 (nent sh) /\ wf_val gshape (val_of o)
+              /\ exists ax, v_kind o = TBatch (Some ax) gs
+                 /\ (forall a, fl = Some a -> ax = a)
+                 /\ (fl = None -> exists g0, hd_error gs = Some g0 /\ ax = gaxes g0)
+  | OErr _ => nth 1 sh 0 <> ndim sh - 2 \/ (fl = None /\ gs = [])
+  | OTuple _ => False
+  end.
+Proof. exact as_flows_sound. Qed.
+Print Assumptions C19_flowfields_constructor_sound.
 
 Theorem C19_append_sound :
   forall (gshape : gid -> shape) (gaxes : gid -> axes) (fl : option axes) (sh : shape) (gs : list gid)
@@ -281,7 +298,7 @@ Theorem C19_former_counterexamples_fixed :
       /\ typed_pieces (run1 (OSplitSizes [1; 2] (DPos (-4)%Z)) b3) = [[0]; [1; 2]])
   /\ (res_ok [0; 1; 2] (run1 (OGetItem (GOne IEll)) b3) = true
       /\ res_ok [0; 1; 2] (run1 (OGetItem (GOne (IBools [true; false; true]))) b3) = true
-      /\ res_ok [0; 1; 2] (run1 (ONarrowM (-4)%Z 1 2) b3) = true).
+      /\ res_ok [0; 1; 2] (run1 (ONarrowM (-4)%Z 1%Z 2) b3) = true).
 Proof. exact (conj split_sizes_fixed (conj tensor_split_int_fixed (conj split_other_dim_fixed getitem_narrow_fixed))). Qed.
 Print Assumptions C19_former_counterexamples_fixed.
 
